@@ -546,9 +546,12 @@ impl GraphOptimizer {
                             continue;
                         };
 
+                        // Graph outputs must remain distinct nodes, so don't
+                        // share a constant node between them.
+                        let is_graph_output = graph_mut.output_ids().contains(&value_id);
                         let const_id = match const_ids.entry((index, dtype)) {
-                            Entry::Occupied(entry) => *entry.get(),
-                            Entry::Vacant(entry) => {
+                            Entry::Occupied(entry) if !is_graph_output => *entry.get(),
+                            entry => {
                                 let Some(const_id) = add_typed_constant(
                                     &mut graph_mut,
                                     &infer_result.constants[index],
@@ -557,7 +560,10 @@ impl GraphOptimizer {
                                     // Value is not representable in target type
                                     continue;
                                 };
-                                *entry.insert(const_id)
+                                if !is_graph_output {
+                                    entry.or_insert(const_id);
+                                }
+                                const_id
                             }
                         };
                         graph_mut.replace_value(value_id, const_id);
